@@ -59,7 +59,11 @@ func StripHostPort(h string) string {
 		if !strings.HasSuffix(host, "]") || strings.ContainsAny(host[1:len(host)-1], "[]") {
 			return h // malformed IPv6 literal, return unchanged
 		}
-		host = host[1 : len(host)-1]
+		// The brackets belong to the syntax of an IPv6 literal followed by a port; around anything else they are
+		// part of the host.
+		if strings.Contains(host[1:len(host)-1], ":") {
+			host = host[1 : len(host)-1]
+		}
 	} else if strings.ContainsAny(host, ":[]") {
 		return h // too many colons or stray bracket, return unchanged
 	}
